@@ -18,9 +18,9 @@ META = {
     "assumptions": ["wording of failure reasons is not judged (only: non-empty tuple of str)",
                     "conditions are from the well-typed alphabet (exact oracle); leaf meanings are C01's business"],
     "bounds": {
-        "quick": {"paths": "length<=1 over 40 parts + length 2 over 12 parts + length 3 over 7 parts", "conditions": "43 leaves + 114 trees (depth<=2 over 6 leaves)",
+        "quick": {"paths": "length<=1 over 42 parts + length 2 over 12 parts + length 3 over 7 parts", "conditions": "43 leaves + 114 trees (depth<=2 over 6 leaves)",
                   "documents": "F-struct(3) + F-type + F-deep"},
-        "thorough": {"paths": "length<=1 over 40 parts + length 2 over 20 parts + length 3 over 7 parts", "conditions": "same",
+        "thorough": {"paths": "length<=1 over 42 parts + length 2 over 20 parts + length 3 over 7 parts", "conditions": "same",
                      "documents": "F-struct(4) + F-type + F-deep"},
     },
 }
